@@ -295,3 +295,42 @@ func VerifPathLockClose() {
 	verifAssert(f3.Close() == nil, "Close succeeds")
 	verifReach("end")
 }
+
+// VerifPathLockResizeFail (C18): an Open that changes the maximum size (internal
+// transactions, preallocation, re-mapping) and meets an I/O failure: it returns
+// (error or success), the lock is free afterwards unless a File was returned,
+// no descriptor leaks, the path opens again.
+func VerifPathLockResizeFail() {
+	verifOSReset()
+	opts := Options{MaxSize: 64 * verifPageSize, PageSize: verifPageSize}
+	lockPath := verifPath + ".lock"
+	f0, err0 := Open(verifPath, 0600, opts)
+	verifAssert(err0 == nil, "creating the file succeeds")
+	verifAssert(f0.Close() == nil, "Close succeeds")
+	d := verifOS.disks[verifPath]
+	o := opts
+	newMax := []uint64{96, 48}[verifChoose(2)]
+	o.MaxSize, o.Flags, o.Prealloc = newMax*verifPageSize, FlagUpdMaxSize, verifBool("prealloc")
+	kind := verifFaultKinds[verifChoose(len(verifFaultKinds))]
+	d.faultKind, d.faultOrd, d.faultBurst = kind, d.counts[kind]+verifChoose(3), 1
+	f, err := Open(verifPath, 0600, o)
+	d.faultKind = faultNone
+	if err != nil {
+		verifAssert(f == nil, "no File is returned together with an error")
+		verifAssert(!verifFlockHeld(lockPath), "after a failing Open the path lock is free")
+		verifAssert(verifOS.opened == 0, "after a failing Open no descriptor is left open")
+	} else {
+		verifAssert(verifFlockHeld(lockPath), "the path lock is held while the File is open")
+		_ = f.Close()
+		verifAssert(!verifFlockHeld(lockPath), "after Close the path lock is free")
+	}
+	f2, err2 := Open(verifPath, 0600, Options{PageSize: verifPageSize})
+	if err2 == nil {
+		verifAssert(f2.Close() == nil, "Close succeeds")
+	} else {
+		// (a file whose limit update went wrong may refuse to open for other reasons; the lock must not be one of them)
+		verifAssert(!isKindVfs(err2), "after a failing Open the path can be locked again immediately")
+	}
+	verifAssert(!verifFlockHeld(lockPath) && verifOS.opened == 0, "nothing is left locked or open")
+	verifReach("end")
+}
